@@ -27,6 +27,9 @@ def render_files(steps, sp, broken=False):
         for i, d in enumerate(ds):
             if sp["comments"] and i % 2 == 0:
                 text += "# ---- a section marker that documents nothing ----\n\n"
+            if sp.get("docs", "one") != "one" and i > 0:
+                # the next definition starts a new YAML document of the same file
+                text += ("...\n" if sp["docs"] == "many_with_end_markers" else "") + "---\n"
             text += d
             if sp["blanks"]:
                 text += "\n\n" if i % 2 else "   \n"
@@ -73,11 +76,11 @@ def main():
     spellings = tlc_cases(res.out)
     # the spelling that differs most from the canonical one (every syntax choice flipped at once) is part of every tier: some type
     # shapes only change their parse tree when shorthand and `T?` are combined (`int?*` vs !vector {items: [null, int]})
-    allshort = {"shorthand": True, "prim_alias": True, "optional": "question", "comments": False, "blanks": False, "order": "asis", "files": 1, "generics": "none"}
+    allshort = {"shorthand": True, "prim_alias": True, "optional": "question", "comments": False, "blanks": False, "order": "asis", "files": 1, "generics": "none", "docs": "one"}
     if not any(x["spelling"] == allshort for x in spellings):
         spellings.append({"spelling": allshort, "relation": "byte_identical_output"})
     canonical = [x for x in spellings if x["spelling"] == {"shorthand": False, "prim_alias": False, "optional": "union", "comments": False,
-                                                            "blanks": False, "order": "asis", "files": 1, "generics": "none"}]
+                                                            "blanks": False, "order": "asis", "files": 1, "generics": "none", "docs": "one"}]
     if not canonical:
         raise Inconclusive("the canonical spelling is missing from the export")
     cases, _ = we.export_cases(1, tier="quick")
